@@ -15,6 +15,9 @@ specialised to the rationals that floats are.
 import RpylibModel.Proofs.Lemmas.C09Abstract
 import RpylibModel.Proofs.Lemmas.C09Terms
 import RpylibModel.Proofs.Lemmas.C09Hem
+import RpylibModel.Proofs.Lemmas.C09Vg
+import RpylibModel.Proofs.Lemmas.C09Special
+import RpylibModel.Proofs.Lemmas.C09Improper
 
 set_option linter.unusedVariables false
 
@@ -86,7 +89,8 @@ theorem truncE_fin (l r a b : ℚ) :
 theorem additive_adjacent {β : Type} [AddCommGroup β] (F : OneSided β) (a b c : ExtRat) (hab : ELe a b) (hbc : ELe b c) :
     ∃ x y, integrate F a b = some x ∧ integrate F b c = some y ∧ integrate F a c = some (x + y) := by
   have hac : ELe a c := by
-    cases a <;> cases b <;> cases c <;> simp_all [ELe, ExtRat.le, ExtRat.lt] <;> linarith
+    cases a <;> cases b <;> cases c <;> simp_all [ELe, ExtRat.le, ExtRat.lt]
+    linarith
   refine ⟨G F b - G F a, G F c - G F b, integrate_eq_G F a b hab, integrate_eq_G F b c hbc, ?_⟩
   rw [integrate_eq_G F a c hac]; congr 1; abel
 
@@ -297,5 +301,148 @@ theorem hem_even_nonneg (k : ℕ) (hk : k ≤ 2) (hev : Even k) (lam p eta1 eta2
     apply mul_nonneg hlR
     apply add_nonneg <;> split_ifs <;> positivity
   exact mul_nonneg (hev.pow_nonneg x) hd
+
+/-! ## (d) variance gamma, n ≥ 1 (variancegamma.py:194-208, as fixed by 938858c) -/
+
+/-- M's VG `integrate_against_xn` for n ≥ 1 equals ∫_a^b x^n · density(x) dx, density as `__call__` computes it
+    (c e^{-λ₋|x|}/|x| for x < 0, c e^{-λ₊x}/x for x > 0): all rational c, λ₊, λ₋ > 0, all rational a ≤ b -/
+theorem vg_xn_correct (m : ℕ) (c lp lm a b : ℚ) (hlp : 0 < lp) (hlm : 0 < lm) (hab : a ≤ b) :
+    ∃ ts, vgXnTerms c lp lm (m + 1) (.fin a) (.fin b) = some ts ∧
+      evalTerms ts = ∫ x in (a : ℝ)..(b : ℝ), x ^ (m + 1) * vgDensity c lp lm x := by
+  have habR : (a : ℝ) ≤ b := by exact_mod_cast hab
+  by_cases hb : b ≤ 0
+  · -- negative side: -c · I_m(a, b; λ₋)
+    have hbR : (b : ℝ) ≤ 0 := by exact_mod_cast hb
+    obtain ⟨ts, hts, hev⟩ := xn_exp_correct m lm a b hlm hab
+    refine ⟨scaleTerms (-c) ts, ?_, ?_⟩
+    · simp [vgXnTerms, ExtRat.lt, ExtRat.le, not_lt.mpr hb, hts]
+    · rw [evalTerms_scale, hev, integral_vg_neg m c lp lm a b hbR habR]; push_cast; ring
+  · have hb' : 0 < b := not_le.mp hb
+    have hbR : (0 : ℝ) < b := by exact_mod_cast hb'
+    by_cases ha : 0 ≤ a
+    · -- positive side: c · I_m(a, b; λ₊)
+      have haR : (0 : ℝ) ≤ a := by exact_mod_cast ha
+      obtain ⟨ts, hts, hev⟩ := xn_exp_correct m lp a b hlp hab
+      refine ⟨scaleTerms c ts, ?_, ?_⟩
+      · simp [vgXnTerms, ExtRat.lt, ExtRat.le, not_lt.mpr ha, hb', hts]
+      · rw [evalTerms_scale, hev, integral_vg_pos m c lp lm a b haR habR]
+    · -- straddling zero: split, λ₋ on the left and λ₊ on the right
+      have ha' : a < 0 := not_le.mp ha
+      have haR : (a : ℝ) < 0 := by exact_mod_cast ha'
+      obtain ⟨t1, ht1, hev1⟩ := xn_exp_correct m lm a 0 hlm ha'.le
+      obtain ⟨t2, ht2, hev2⟩ := xn_exp_correct m lp 0 b hlp hb'.le
+      refine ⟨scaleTerms (-c) t1 ++ scaleTerms c t2, ?_, ?_⟩
+      · simp [vgXnTerms, ExtRat.lt, ha', hb', ht1, ht2]
+      · rw [evalTerms_append, evalTerms_scale, evalTerms_scale, hev1, hev2,
+          integral_vg_split m c lp lm a b haR.le hbR.le,
+          integral_vg_neg m c lp lm a 0 le_rfl haR.le, integral_vg_pos m c lp lm 0 b le_rfl hbR.le]
+        push_cast; ring
+
+/-! ## (d) closed forms with special functions: the function is a parameter, its ODE an explicit hypothesis -/
+
+/-- Merton mass (merton.py:65-78) = ∫_a^b density, for every `erf` with `erf' x = 2/√π · e^{-x²}` -/
+theorem merton_mass (erf : ℝ → ℝ) (herf : ∀ x, HasDerivAt erf (2 / √π * exp (-x ^ 2)) x)
+    (lam mu sigma : ℝ) (hs : sigma ≠ 0) (a b : ℝ) :
+    mertonMass erf lam mu sigma a b = ∫ x in a..b, mertonDensity lam mu sigma x :=
+  (integral_merton_mass erf herf lam mu sigma hs a b).symm
+
+/-- Merton first moment (merton.py:80-92) -/
+theorem merton_x (erf : ℝ → ℝ) (herf : ∀ x, HasDerivAt erf (2 / √π * exp (-x ^ 2)) x)
+    (lam mu sigma : ℝ) (hs : sigma ≠ 0) (a b : ℝ) :
+    lam * (mertonAuxX erf mu sigma b - mertonAuxX erf mu sigma a) = ∫ x in a..b, x ^ 1 * mertonDensity lam mu sigma x :=
+  (integral_merton_x erf herf lam mu sigma hs a b).symm
+
+/-- Merton second moment (merton.py:94-114, finite end points) -/
+theorem merton_xx (erf : ℝ → ℝ) (herf : ∀ x, HasDerivAt erf (2 / √π * exp (-x ^ 2)) x)
+    (lam mu sigma : ℝ) (hs : sigma ≠ 0) (a b : ℝ) :
+    lam * (mertonAuxXX erf mu sigma b - mertonAuxXX erf mu sigma a) = ∫ x in a..b, x ^ 2 * mertonDensity lam mu sigma x :=
+  (integral_merton_xx erf herf lam mu sigma hs a b).symm
+
+/-- the hypothesis on erf is satisfiable (so the three theorems are not vacuous) -/
+theorem erf_hypothesis_satisfiable : ∃ erf : ℝ → ℝ, ∀ x, HasDerivAt erf (2 / √π * exp (-x ^ 2)) x := by
+  have hc : Continuous fun t : ℝ => 2 / √π * exp (-t ^ 2) := by fun_prop
+  refine ⟨fun x => ∫ t in (0:ℝ)..x, 2 / √π * exp (-t ^ 2), fun x => ?_⟩
+  exact intervalIntegral.integral_hasDerivAt_right (hc.intervalIntegrable 0 x)
+    (hc.stronglyMeasurableAtFilter _ _) hc.continuousAt
+
+/-- VG mass on [a,b] ⊂ (0,∞) (variancegamma.py:141-142), for every `E1` with `E1' x = −e^{-x}/x` on x > 0 -/
+theorem vg_mass_pos (E1 : ℝ → ℝ) (hE1 : ∀ x, 0 < x → HasDerivAt E1 (-exp (-x) / x) x)
+    (c lp lm : ℝ) (hlp : 0 < lp) (a b : ℝ) (ha : 0 < a) (hab : a ≤ b) :
+    c * (E1 (lp * a) - E1 (lp * b)) = ∫ x in a..b, vgDensity c lp lm x :=
+  (integral_vg_mass_pos E1 hE1 c lp lm hlp a b ha hab).symm
+
+/-- VG mass on [a,b] ⊂ (−∞,0) (variancegamma.py:143-144) -/
+theorem vg_mass_neg (E1 : ℝ → ℝ) (hE1 : ∀ x, 0 < x → HasDerivAt E1 (-exp (-x) / x) x)
+    (c lp lm : ℝ) (hlm : 0 < lm) (a b : ℝ) (hb : b < 0) (hab : a ≤ b) :
+    c * (E1 (-lm * b) - E1 (-lm * a)) = ∫ x in a..b, vgDensity c lp lm x :=
+  (integral_vg_mass_neg E1 hE1 c lp lm hlm a b hb hab).symm
+
+/-- the hypothesis on E1 is satisfiable -/
+theorem E1_hypothesis_satisfiable : ∃ E1 : ℝ → ℝ, ∀ x, 0 < x → HasDerivAt E1 (-exp (-x) / x) x := by
+  refine ⟨fun x => ∫ t in (1:ℝ)..x, -exp (-t) / t, fun x hx => ?_⟩
+  have hcont : ContinuousOn (fun t : ℝ => -exp (-t) / t) (Set.Ioi 0) :=
+    ContinuousOn.div (Continuous.continuousOn (by fun_prop)) continuousOn_id (fun t ht => ne_of_gt ht)
+  have hint : IntervalIntegrable (fun t : ℝ => -exp (-t) / t) MeasureTheory.volume 1 x := by
+    apply ContinuousOn.intervalIntegrable
+    apply hcont.mono
+    intro t ht
+    exact lt_of_lt_of_le (lt_min one_pos hx) ht.1
+  exact intervalIntegral.integral_hasDerivAt_right hint
+    (hcont.stronglyMeasurableAtFilter isOpen_Ioi x hx) (hcont.continuousAt (Ioi_mem_nhds hx))
+
+/-! ## infinite end points (one side of zero) -/
+
+/-- `integral_xn_exp_minus_x(n, a, inf, α)` for a ≥ 0 is the improper integral over (a, ∞) -/
+theorem xn_exp_correct_pos_inf (n : ℕ) (α a : ℚ) (hα : 0 < α) (ha : 0 ≤ a) :
+    ∃ ts, xnExpTerms n α (.fin a) .posInf = some ts ∧
+      evalTerms ts = ∫ x in Set.Ioi (a : ℝ), x ^ n * exp (-((α : ℝ) * |x|)) := by
+  have hαR : (0 : ℝ) < α := by exact_mod_cast hα
+  have haR : (0 : ℝ) ≤ a := by exact_mod_cast ha
+  refine ⟨[xnHelper helperSum n α 1 a], ?_, ?_⟩
+  · simp [xnExpTerms, xnExpTermsWith, xnExpOneSided, xnSign, not_le.mpr hα, ExtRat.lt, not_lt.mpr ha]
+  · rw [evalTerms_cons, evalTerms_nil, eval_xnHelper n α 1 a hα, abs_of_nonneg haR, integral_Ioi_xn_exp n α hαR a haR]
+    push_cast; ring
+
+/-- `integral_xn_exp_minus_x(n, -inf, b, α)` for b ≤ 0 is the improper integral over (−∞, b] -/
+theorem xn_exp_correct_neg_inf (n : ℕ) (α b : ℚ) (hα : 0 < α) (hb : b ≤ 0) :
+    ∃ ts, xnExpTerms n α .negInf (.fin b) = some ts ∧
+      evalTerms ts = ∫ x in Set.Iic (b : ℝ), x ^ n * exp (-((α : ℝ) * |x|)) := by
+  have hαR : (0 : ℝ) < α := by exact_mod_cast hα
+  have hbR : (b : ℝ) ≤ 0 := by exact_mod_cast hb
+  refine ⟨[negTerm (xnHelper helperSum n α ((-1) ^ (n + 1)) b)], ?_, ?_⟩
+  · simp [xnExpTerms, xnExpTermsWith, xnExpOneSided, xnSign, not_le.mpr hα, ExtRat.lt, not_lt.mpr hb]
+  · have e := eval_xnHelper n α ((-1) ^ (n + 1)) b hα
+    simp only [evalTerms_cons, evalTerms_nil, negTerm, add_zero]
+    push_cast at e ⊢
+    rw [neg_mul, e, abs_of_nonpos hbR, integral_Iic_xn_exp n α hαR b hbR]
+    ring
+
+/-- HEM on [a, ∞), a ≥ 0 -/
+theorem hem_correct_pos_inf (k : ℕ) (hk : k ≤ 2) (lam p eta1 eta2 a : ℚ) (hl : 0 ≤ lam) (hp : 0 ≤ p) (h1 : 0 < eta1)
+    (ha : 0 ≤ a) :
+    ∃ ts, hemTerms k lam p eta1 eta2 (.fin a) .posInf = some ts ∧
+      evalTerms ts = ∫ x in Set.Ioi (a : ℝ), x ^ k * hemDensity lam p eta1 eta2 x := by
+  have hlR : (0 : ℝ) ≤ lam := by exact_mod_cast hl
+  have hpR : (0 : ℝ) ≤ p := by exact_mod_cast hp
+  have h1R : (0 : ℝ) < eta1 := by exact_mod_cast h1
+  have haR : (0 : ℝ) ≤ a := by exact_mod_cast ha
+  refine ⟨[hemPosTerm k (lam * p) eta1 a], ?_, ?_⟩
+  · simp [hemTerms, hemPos, ExtRat.lt, ExtRat.le, not_lt.mpr ha]
+  · rw [evalTerms_cons, evalTerms_nil, cast_hemPosTerm k hk, integral_Ioi_hem k hk _ _ _ _ hlR hpR h1R a haR]
+    push_cast; ring
+
+/-- HEM on (−∞, b], b ≤ 0 -/
+theorem hem_correct_neg_inf (k : ℕ) (hk : k ≤ 2) (lam p eta1 eta2 b : ℚ) (hl : 0 ≤ lam) (hp : p ≤ 1) (h2 : 0 < eta2)
+    (hb : b ≤ 0) :
+    ∃ ts, hemTerms k lam p eta1 eta2 .negInf (.fin b) = some ts ∧
+      evalTerms ts = ∫ x in Set.Iic (b : ℝ), x ^ k * hemDensity lam p eta1 eta2 x := by
+  have hlR : (0 : ℝ) ≤ lam := by exact_mod_cast hl
+  have hpR : (p : ℝ) ≤ 1 := by exact_mod_cast hp
+  have h2R : (0 : ℝ) < eta2 := by exact_mod_cast h2
+  have hbR : (b : ℝ) ≤ 0 := by exact_mod_cast hb
+  refine ⟨[hemNegTerm k (lam * (1 - p)) eta2 b], ?_, ?_⟩
+  · simp [hemTerms, hemNeg, ExtRat.lt, ExtRat.le, not_lt.mpr hb]
+  · rw [evalTerms_cons, evalTerms_nil, cast_hemNegTerm k hk, integral_Iic_hem k hk _ _ _ _ hlR hpR h2R b hbR]
+    push_cast; ring
 
 end Rpylib.Integrals
